@@ -203,32 +203,43 @@ def run_fuzz(prop, sc, tier, shard, seed, stats):
                 handle.write(bytes(rng.randrange(256) for _ in range(rng.randrange(8, 96))))
     stats_path = os.path.join(work, "stats.json")
     env = dict(os.environ, PYTHONHASHSEED="0", PYTHONPATH=core.VERIF)
-    cmd = [sys.executable, "-m", "pbt.fuzz.target", target_prop, stats_path, str(runs),
-           "-seed=%d" % (seed % (2 ** 31 - 1) + 1), "-max_len=256", "-artifact_prefix=" + work + "/",
-           os.path.join(work, "corpus")]
+    # the atheris process grows by about 30 kB per execution, so a long campaign is run as consecutive processes of
+    # at most 20,000 executions that share the corpus directory (libFuzzer reloads it)
+    remaining, chunk = runs, 0
     try:
-        done = subprocess.run(cmd, cwd=core.VERIF, env=env, capture_output=True, text=True,
-                              timeout=max(600, runs // 100))
-        data = json.load(open(stats_path)) if os.path.exists(stats_path) else None
-        if data is None:
-            stats.errors.append("fuzz target %s produced no statistics (exit %d): %s"
-                                % (target_prop, done.returncode, (done.stdout + done.stderr)[-400:]))
-            return
-        stats.evaluations += data["evaluations"]
-        stats.classes.update(data["classes"])
-        stats.classes["fuzz_execs"] += data["execs"]
+        while remaining > 0:
+            now = min(remaining, 20000)
+            remaining -= now
+            chunk += 1
+            if os.path.exists(stats_path):
+                os.remove(stats_path)
+            cmd = [sys.executable, "-m", "pbt.fuzz.target", target_prop, stats_path, str(now),
+                   "-seed=%d" % ((seed + chunk) % (2 ** 31 - 1) + 1), "-max_len=256", "-rss_limit_mb=4096",
+                   "-artifact_prefix=" + work + "/", os.path.join(work, "corpus")]
+            done = subprocess.run(cmd, cwd=core.VERIF, env=env, capture_output=True, text=True,
+                                  timeout=max(900, now // 20))
+            data = json.load(open(stats_path)) if os.path.exists(stats_path) else None
+            if data is None:
+                stats.errors.append("fuzz target %s produced no statistics (exit %d): %s"
+                                    % (target_prop, done.returncode, (done.stdout + done.stderr)[-400:]))
+                return
+            stats.evaluations += data["evaluations"]
+            stats.classes.update(data["classes"])
+            stats.classes["fuzz_execs"] += data["execs"]
+            if "digests" in data:
+                stats.nontrivial |= {bytes.fromhex(d) for d in data["digests"]}
+            else:
+                stats.nontrivial |= {("fuzz-%d-%d-%d" % (shard, chunk, i)).encode() for i in range(data["nontrivial"])}
+            stats.samples += data["samples"]
+            if data["violation"]:
+                stats.violations.append({"subcheck": sc.name, "replay": data["violation"]["replay"],
+                                         "detail": "[fuzz] " + data["violation"]["detail"]})
+                return
+            if done.returncode != 0:
+                stats.errors.append("fuzz target %s exited %d without a recorded violation: %s"
+                                    % (target_prop, done.returncode, (done.stdout + done.stderr)[-400:]))
+                return
         stats.classes["fuzz_corpus:" + ("seeded" if shard % 2 else "empty")] += 1
-        if "digests" in data:
-            stats.nontrivial |= {bytes.fromhex(d) for d in data["digests"]}
-        else:
-            stats.nontrivial |= {("fuzz-%d-%d" % (shard, i)).encode() for i in range(data["nontrivial"])}
-        stats.samples += data["samples"]
-        if data["violation"]:
-            stats.violations.append({"subcheck": sc.name, "replay": data["violation"]["replay"],
-                                     "detail": "[fuzz] " + data["violation"]["detail"]})
-        elif done.returncode != 0:
-            stats.errors.append("fuzz target %s exited %d without a recorded violation: %s"
-                                % (target_prop, done.returncode, (done.stdout + done.stderr)[-400:]))
     finally:
         shutil.rmtree(work, ignore_errors=True)
 
@@ -354,7 +365,7 @@ def main(argv):
         m = merged[sub_idx]
         scale = 1 if tier == "quick" else max(1, sc.examples[1] // max(1, sc.examples[0]))
         for label, floor in sc.floors.items():
-            if m["classes"].get(label, 0) < floor * (1 if sc.enum is not None else min(scale, 4)):
+            if m["classes"].get(label, 0) < floor:  # absolute minimum, the same in both tiers
                 if not any(v["subcheck"] == sc.name for v in violations):
                     errors.append("generator floor missed: sub-check %s produced %d cases of class %r (floor %d)"
                                   % (sc.name, m["classes"].get(label, 0), label, floor))
